@@ -2657,3 +2657,39 @@ func OwnBSScratch(p *load.Program) *report.RuleResult {
 	}
 	return r
 }
+
+// ---------------------------------------------------------------------------
+// NIL-EMPTYCOPY
+
+// NilEmptyCopy implements NIL-EMPTYCOPY.
+func NilEmptyCopy(p *load.Program) *report.RuleResult {
+	r := newResult("NIL-EMPTYCOPY", "no slice is copied in package ion by appending it to a nil slice (append([]T(nil), x...)): for an empty but non-nil x the result is nil, and an empty blob, clob or list is then decoded as a null one; empty versus nil collections are different Ion values and different Go values", 0)
+	for _, fn := range sortedFuncs(p) {
+		if !ScopeIon.has(p, fn) || len(fn.Blocks) == 0 {
+			continue
+		}
+		for _, b := range fn.Blocks {
+			for _, in := range b.Instrs {
+				c, ok := in.(*ssa.Call)
+				if !ok || !ssau.IsBuiltinCall(c, "append") || len(c.Call.Args) != 2 || !ssau.IsNilConst(c.Call.Args[0]) {
+					continue
+				}
+				// append(nil, a, b) packs its arguments into a fresh array; append(nil, x...) passes x itself
+				spread := true
+				if sl, ok := c.Call.Args[1].(*ssa.Slice); ok {
+					if al, ok := sl.X.(*ssa.Alloc); ok && al.Comment == "varargs" {
+						spread = false
+					}
+				}
+				name := p.FuncName(fn)
+				what := "append(nil, " + describeOperand(c.Call.Args[1]) + "...)"
+				if !spread {
+					r.OK(name, instrPos(p, c), "append(nil, elements)", "at least one element: the result is not nil")
+				} else {
+					r.Bad(name, instrPos(p, c), what, "copies the slice but returns nil when it is empty and non-nil: {{}} is decoded as null.blob (use make+copy or append(x[:0:0], x...))")
+				}
+			}
+		}
+	}
+	return r
+}
